@@ -4,6 +4,7 @@
 (K) correspondence: wb_ht (hash_table.c / dict.c white-box, histories) against the model, token for token.
 (L)+(R) laws on the implementation: multiset / refcount reference on wb_ht replies; api_life histories under ASan/LSan
 with the dictionary walked before/after (tools/checks/c17life.py)."""
+import os
 from checks import htcomp
 
 try:
@@ -42,6 +43,8 @@ def classify(component, what, case):
 
 
 def run(cx):
-    htcomp.run_ht(cx)
-    if c17life is not None:
+    parts = os.environ.get("C17_PARTS", "ht,life").split(",")      # development aid: run one half only
+    if "ht" in parts:
+        htcomp.run_ht(cx)
+    if "life" in parts and c17life is not None:
         c17life.run_life(cx)
